@@ -250,7 +250,7 @@ fn order_error_str(e: &OrderError) -> String {
         OrderError::Connectivity(ConnectivityError::Timeout) => "timeout".into(),
         OrderError::Connectivity(_) => "connectivity".into(),
         OrderError::Rejected(ApiError::OrderRejected(_)) => "rej".into(),
-        OrderError::Rejected(ApiError::InstrumentInvalid(i, _)) => format!("inv{}", i.0),
+        OrderError::Rejected(ApiError::InstrumentInvalid(i, _)) => format!("inv{}", i.0.wrapping_sub(INDEX_OFFSET)),
         OrderError::Rejected(_) => "rej-other".into(),
     }
 }
@@ -288,12 +288,18 @@ fn canon(event: &AccountStreamEvent) -> (String, String) {
         "{k} {} {} {} {} {}",
         exchange.0,
         key.exchange.0,
-        key.instrument.0,
+        // engine instrument indices of this exchange do not start at 0 (see INDEX_OFFSET)
+        key.instrument.0.wrapping_sub(INDEX_OFFSET),
         strip('s', key.strategy.0.as_str()),
         strip('c', key.cid.0.as_str())
     );
     (format!("at {who}"), format!("ev {who} {body} {outcome}"))
 }
+
+/// The manager under test serves an exchange that is NOT the first of a multi-exchange system: the
+/// engine indices of its instruments start at this offset (instruments of exchanges that sort before
+/// it occupy 0..INDEX_OFFSET), so an index is never equal to a position in the exchange's own map.
+const INDEX_OFFSET: usize = 3;
 
 struct Live {
     req_tx: UnboundedTx<ExecutionRequest<ExchangeIndex, InstrumentIndex>>,
@@ -308,7 +314,7 @@ fn start(timeout: u64, n: usize) -> Live {
     let (resp_tx, resp_rx) = mpsc_unbounded();
     let client = ScriptedClient::default();
     let instruments: FnvIndexMap<InstrumentIndex, InstrumentNameExchange> =
-        (0..n).map(|i| (InstrumentIndex(i), ins_name(i))).collect();
+        (0..n).map(|i| (InstrumentIndex(INDEX_OFFSET + i), ins_name(i))).collect();
     let map = ExecutionInstrumentMap::new(
         Keyed::new(ExchangeIndex(0), ExchangeId::Mock),
         FnvIndexMap::default(),
@@ -379,7 +385,7 @@ fn request(op: &[String]) -> ExecutionRequest<ExchangeIndex, InstrumentIndex> {
     let p = |i: usize| op[i].parse::<usize>().unwrap();
     let key = OrderKey {
         exchange: ExchangeIndex(p(1)),
-        instrument: InstrumentIndex(p(2)),
+        instrument: InstrumentIndex(INDEX_OFFSET + p(2)),
         strategy: StrategyId::new(format!("s{}", p(3))),
         cid: ClientOrderId::new(format!("c{}", p(4))),
     };
